@@ -2,6 +2,7 @@
 # Runs every registered quick check on the real tree (refreshes /verif/evidence). Exit 0 iff all pass.
 cd "$(dirname "$0")/.."
 rc=0
+python3 tools/sync_props.py || { echo "props out of sync with the tags in the contracts (tools/sync_props.py --fix)"; rc=1; }
 for id in $(python3 -c "import json;print(' '.join(c['property_id'] for c in json.load(open('MANIFEST.json'))['checks']))"); do
   out=$(./check $id --tier "${1:-quick}" 2>&1); code=$?
   echo "$id exit=$code $(echo "$out" | grep '^property' | head -1)"
